@@ -184,6 +184,21 @@ def gen_case(rng):
     leaves, _ = expand(case)
     perm = list(leaves)
     rng.shuffle(perm)
+    if rng.random() < 0.5:
+        # ranking that keeps the leaves of a summary together (branches in a random order): many
+        # summary -> summary links become possible
+        kids0 = {i: [j for j in range(n) if tasks[j]['parent'] == i] for i in range(n)}
+
+        def walk(i):
+            if not kids0[i]:
+                return [i]
+            cs = list(kids0[i])
+            rng.shuffle(cs)
+            return [x for c in cs for x in walk(c)]
+
+        roots = [i for i in range(n) if tasks[i]['parent'] is None]
+        rng.shuffle(roots)
+        perm = [x for r in roots for x in walk(r)]
     rank = {l: r for r, l in enumerate(perm)}
     case['rank'] = {str(l): r for l, r in rank.items()}   # json keys are strings
     kids = {i: [] for i in range(len(tasks))}
@@ -394,7 +409,12 @@ def judge(ctx, case, obs, code, from_corpus=False):
         feats = features(case)
         info['expected_positions'] = sorted(feats['crit'])
         info['expected_ids'] = sorted(str(case['tasks'][l]['id']) for l in feats['crit'])
-        ctx.failure(SIG[code], WHAT[code], info)
+        if ctx.proof.get('ok'):
+            ctx.failure(SIG[code], WHAT[code], info)
+        else:
+            # the theorems did not build: the model is not a proved specification in this run, a
+            # difference is only a disagreement
+            ctx.mismatch(WHAT[code] + ' (model unproved in this run)', info)
     elif code != 0:
         raise InfraError('unknown code %d from check_case' % code)
     if obs['before'] != obs['after']:
